@@ -188,6 +188,10 @@ func run(t *tape.Tape, cfg sim.Config, listen bool) (res sim.Result) {
 		r.perInstCompile = true
 		res.Stat("probe.one_compilation_per_instance_same_selection", 1)
 	}
+	if listen && (cfg.Class == "all" || cfg.Class == "subset") && t.Chance(1, 4) {
+		r.multi = true
+		res.Stat("probe.multi_function_listener_factory", 1)
+	}
 	if t.Chance(1, 3) {
 		r.ensureTerm = true
 		res.Stat("probe.close_on_context_done_enabled_never_triggered", 1)
